@@ -800,9 +800,16 @@ fn parse_file(
                 arch_offset,
             ))
         }
-        FileKind::MachOFat32 => parse_fat::<FatArch32>(region, process_memory, data),
+        // A fat file found inside a fat file (`add_file_to_data` is only set when parsing the
+        // members of a fat file) is not parsed: an arch with offset 0 is the fat file itself, and
+        // following it would recurse until the stack overflows.
+        FileKind::MachOFat32 if !add_file_to_data => {
+            parse_fat::<FatArch32>(region, process_memory, data)
+        }
         // TODO: add test on this format
-        FileKind::MachOFat64 => parse_fat::<FatArch64>(region, process_memory, data),
+        FileKind::MachOFat64 if !add_file_to_data => {
+            parse_fat::<FatArch64>(region, process_memory, data)
+        }
         _ => None,
     }
 }
